@@ -185,3 +185,25 @@ Definition r_ok_chrom (R : list (list Q)) (c : nat * nat) : bool :=
                       (if (S i <? k)%nat then Qclose (1 - 2 * lookup R i k) ((1 - 2 * lookup R i (S i)) * (1 - 2 * lookup R (S i) k)) else true))
             (seq (S i) (snd c - S i))) (ixs c).
 Definition r_ok (R : list (list Q)) (chroms : list (nat * nat)) : bool := forallb (r_ok_chrom R) chroms.
+
+(** * usefulness-criterion matrix check: one row per cross configuration of xmap *)
+Fixpoint all2 {A B} (f : A -> B -> bool) (l1 : list A) (l2 : list B) : bool :=
+  match l1, l2 with
+  | [], [] => true
+  | x :: t1, y :: t2 => f x y && all2 f t1 t2
+  | _, _ => false
+  end.
+Definition uc_row_ok (si : Q) (epgc : list Q) (bvf : nat -> nat -> Q) (varf : list nat -> nat -> Q) (t : nat) (c : list nat) (xs : list Q) : bool :=
+  all2 (fun x tr => uc_ok si (pmean epgc (map (fun k => bvf k tr) c)) (varf c tr) x) xs (ix t).
+Definition uc_mat_ok si epgc bvf varf t (xmap : list (list nat)) (ucm : list (list Q)) : bool :=
+  all2 (uc_row_ok si epgc bvf varf t) xmap ucm.
+Definition cfg (c : list nat) (k : nat) : nat := nth k c O.
+Definition uc_var (scheme : nat) (S : setup) (geno geno1 : list (list Z)) (c : list nat) (tr : nat) : Q :=
+  match scheme with
+  | 2%nat => twoway_entry S geno tr tr (cfg c 0) (cfg c 1)
+  | 3%nat => threeway_entry S geno tr tr (cfg c 0) (cfg c 1) (cfg c 2)
+  | 4%nat => fourway_entry S geno tr tr (cfg c 0) (cfg c 1) (cfg c 2) (cfg c 3)
+  | _ => dihybrid_entry S geno geno1 tr tr (cfg c 0) (cfg c 1)
+  end.
+Definition uc_epgc (scheme : nat) : list Q :=
+  match scheme with 3%nat => [1#2; 1#4; 1#4] | 4%nat => [1#4; 1#4; 1#4; 1#4] | _ => [1#2; 1#2] end.
